@@ -18,7 +18,7 @@ REQUIRED_MONITORS = ["action@SSI dialog(enumerated)", "action@SSI dialog(random)
                      "hand-over@SSIcov.mpe_from_plot", "hand-over@pLSCF.mpe_from_plot", "hand-over@FDD.mpe_from_plot"]
 ALL_STATES = ["picks in descending frequency order", "same pole picked twice", "deselect-one with >= 2 selected", "deselect-nearest with >= 2 selected", "click without modifier ignored",
               "click outside the axes", "pick on a column without poles", "deselect on empty selection", "modifier released before click"]
-REQUIRED_STATES = ["picks outside the window the dialog opened with (after panning)", "picks in descending frequency order", "deselect-one with >= 2 selected", "deselect-nearest with >= 2 selected", "click without modifier ignored",
+REQUIRED_STATES = ["picks a millionth of the pole spacing beside the midpoint of two poles", "picks outside the window the dialog opened with (after panning)", "picks in descending frequency order", "deselect-one with >= 2 selected", "deselect-nearest with >= 2 selected", "click without modifier ignored",
                    "click outside the axes", "deselect on empty selection", "modifier released before click", "dialog opened with freqlim",
                    "deselect-nearest beside the midpoint of two selected frequencies", "same pole picked twice",
                    "hand-over of picks at two alternating model orders", "pick at the lower edge of the axes", "hand-over with two retained poles closer than the extraction tolerance"]
@@ -369,6 +369,22 @@ def run_random(ctx, case):
 
     def rand_actions(s):
         s.key(True)
+        if plot != "FDD" and case["k"] % 4 == 1:
+            # picks a hair beside the midpoint between two retained poles of one order (a millionth of their spacing to either side): the pole
+            # picked is the one that is nearer, by however little, in whichever row of the table it is stored
+            F_ = np.asarray(algo.result.Fn_poles)
+            cols_ = [c_ for c_ in range(F_.shape[1]) if np.isfinite(F_[:, c_]).sum() >= 2]
+            if cols_:
+                c_ = int(cols_[int(rng.integers(0, len(cols_)))])
+                fs_ = np.sort(F_[np.isfinite(F_[:, c_]), c_])
+                gaps_ = [i_ for i_ in range(len(fs_) - 1) if fs_[i_ + 1] - fs_[i_] > 1e-3]
+                if gaps_:
+                    i_ = int(gaps_[int(rng.integers(0, len(gaps_)))])
+                    mid_, sp_ = 0.5 * (fs_[i_] + fs_[i_ + 1]), fs_[i_ + 1] - fs_[i_]
+                    for sg_ in (-1, 1):
+                        if s.ok:
+                            s.click(1, float(mid_ + sg_ * 1e-6 * sp_), float(c_), pan=(0.0, 50.0))
+                    ctx.state("picks a millionth of the pole spacing beside the midpoint of two poles")
         # purposeful opening: a few picks at different orders, in random frequency order, then a deselection
         for k in rng.permutation(len(fn))[: int(rng.integers(2, len(fn) + 1))]:
             yy = float(rng.uniform(-40, -1)) if plot == "FDD" else float(rng.integers(max(2, ncol - 7), ncol) + rng.uniform(-0.3, 0.3))
